@@ -12,6 +12,9 @@ import (
 	"os"
 	"strconv"
 	"strings"
+	"sync"
+	"sync/atomic"
+	"time"
 
 	"github.com/KafScale/platform/pkg/cache"
 )
@@ -33,7 +36,88 @@ type handout struct {
 	seen []byte
 }
 
+// stress: concurrent writers/readers over few keys; every payload is self-describing (all bytes
+// equal, length = value%97+1) so a reader can tell a torn or later-overwritten slice.  Built
+// with -race, so an unsynchronised access inside the cache is reported by the detector too.
+func stress(ms int) {
+	c := cache.NewSegmentCache(200)
+	deadline := time.Now().Add(time.Duration(ms) * time.Millisecond)
+	var wg sync.WaitGroup
+	var bad, reads, over atomic.Int64
+	for g := 0; g < 4; g++ {
+		wg.Add(1)
+		go func(g int) {
+			defer wg.Done()
+			n := uint32(g*7919 + 1)
+			for time.Now().Before(deadline) {
+				n = n*1664525 + 1013904223
+				k := keys[int(n>>8)%4]
+				v := byte(n >> 16)
+				d := bytes.Repeat([]byte{v}, int(v)%97+1)
+				c.SetSegment(k.topic, k.part, k.base, d)
+				if capacity, _, ents := c.VerifDump(); true {
+					t := 0
+					for _, e := range ents {
+						t += e.Len
+					}
+					if t > capacity {
+						over.Add(1)
+					}
+				}
+			}
+		}(g)
+	}
+	for g := 0; g < 4; g++ {
+		wg.Add(1)
+		go func(g int) {
+			defer wg.Done()
+			n := uint32(g*104729 + 3)
+			var held [][]byte
+			check := func(d []byte) {
+				if len(d) == 0 {
+					return
+				}
+				if len(d) != int(d[0])%97+1 {
+					bad.Add(1)
+					return
+				}
+				for _, b := range d {
+					if b != d[0] {
+						bad.Add(1)
+						return
+					}
+				}
+			}
+			for time.Now().Before(deadline) {
+				n = n*1664525 + 1013904223
+				k := keys[int(n>>8)%4]
+				if d, ok := c.GetSegment(k.topic, k.part, k.base); ok {
+					reads.Add(1)
+					check(d)
+					held = append(held, d)
+					if len(held) > 64 {
+						for _, h := range held {
+							check(h)
+						}
+						held = held[:0]
+					}
+				}
+			}
+			for _, h := range held {
+				check(h)
+			}
+		}(g)
+	}
+	wg.Wait()
+	fmt.Printf("stress reads=%d torn=%d overcap=%d\n", reads.Load(), bad.Load(), over.Load())
+}
+
 func main() {
+	if len(os.Args) == 3 && os.Args[1] == "stress" {
+		ms, _ := strconv.Atoi(os.Args[2])
+		stress(ms)
+		return
+	}
 	var c *cache.SegmentCache = cache.NewSegmentCache(1)
 	var outs []handout
 	w := bufio.NewWriter(os.Stdout)
